@@ -121,8 +121,14 @@ def check_tree(data: dict, lab: Labels) -> None:
         parent[c.uid] = (p, fn, i)
     chains = {e.uid: chain_of(e, parent) for e in nodes}
     any_nt = False
-    same_id_pairs = len({b.of(e).id for e in nodes}) < len(nodes)  # a given-up node next to its successor
-    lab.tag_if(same_id_pairs, "two-objects-one-id")
+    by_id: dict = {}
+    for e in nodes:
+        by_id.setdefault(b.of(e).id, []).append(b.of(e))
+    # a given-up node next to its successor: `match` looks a node up in the Tree tables, which tell nodes
+    # apart by `==`; it is defined unless two *equal* objects stand in the tree
+    same_id_pairs = any(p == q for g in by_id.values() for i, p in enumerate(g) for q in g[i + 1:])
+    lab.tag_if(same_id_pairs, "two-equal-objects-one-id")
+    lab.tag_if(any(len(g) > 1 for g in by_id.values()) and not same_id_pairs, "two-unequal-objects-one-id")
     for xp in data["xpaths"]:
         if xp[0] == "raw":
             steps, relative, ws = xp[1], xp[2], xp[3]
@@ -189,7 +195,7 @@ def check_tree(data: dict, lab: Labels) -> None:
 
 def st_case(ctx: Ctx):
     g = T.TreeGen(leaves=ctx.pick(10, 14), share=False, twins=True, origin_rate=0.05, refs=True)
-    g2 = T.TreeGen(leaves=ctx.pick(8, 10), share=False, twins=True, origin_rate=0.0, detach_rate=0.3)
+    g2 = T.TreeGen(leaves=ctx.pick(8, 10), share=False, twins=True, origin_rate=0.0, detach_rate=0.3, stale_pairs=True)
     raw = st.tuples(st.just("raw"), X.st_steps(CLASS_NAMES, FIELD_NAMES), st.booleans(), st.integers(0, 2**12)).map(list)
     derived = st.tuples(st.just("derived"), st.integers(0, 60), st.integers(0, 2**30), st.integers(0, 500),
                         st.sampled_from([0, 0, 0, 5, 1023, 77])).map(list)
